@@ -62,7 +62,7 @@ pub fn run(tier: &str, seed: u64, out: &str) {
         std::fs::write(&spec, serde_json::to_string(&c.doc).unwrap()).unwrap();
         let dest = root.join("out");
         // prior content of the output directory
-        let prior = match i % 5 { 0 | 1 | 2 => "empty", 3 => "previous generation", _ => "unrelated files" };
+        let prior = match i % 6 { 0 | 1 | 2 => "empty", 3 => "previous generation", 4 => "unrelated files", _ => "damaged previous generation" };
         let mut junk: Vec<String> = vec![];
         if prior == "previous generation" { let _ = run_cli(&root, &spec.to_string_lossy(), &dest.to_string_lossy(), &c.cfg, 20); }
         if prior == "unrelated files" {
@@ -70,6 +70,15 @@ pub fn run(tier: &str, seed: u64, out: &str) {
                 .iter().map(|(k, v)| (k.to_string(), v.as_bytes().to_vec())).collect();
             write_tree(&dest, &t);
             junk = vec!["src/old_module.rs".into(), "src/model/stale.rs".into(), "examples/gone.rs".into()];
+        }
+        if prior == "damaged previous generation" {
+            // a previous generation of which one model and one request file are no longer valid UTF-8 (torn by an interrupted run,
+            // or saved in another encoding), one of them kept by the user under the static directive; lib.rs is missing
+            let _ = run_cli(&root, &spec.to_string_lossy(), &dest.to_string_lossy(), &c.cfg, 20);
+            let t = read_tree(&dest);
+            if let Some(p) = t.keys().find(|k| k.starts_with("src/model/") && *k != "src/model/mod.rs") { let _ = std::fs::write(dest.join(p), b"pub struct Torn { caf\xe9"); }
+            if let Some(p) = t.keys().find(|k| k.starts_with("src/request/") && *k != "src/request/mod.rs") { let _ = std::fs::write(dest.join(p), b"// libninja: static\n// r\xe9sum\xe9 kept by hand\n"); }
+            let _ = std::fs::remove_file(dest.join("src/lib.rs"));
         }
         let r = run_cli(&root, &spec.to_string_lossy(), &dest.to_string_lossy(), &c.cfg, 20);
         let tree = read_tree(&dest);
